@@ -11,7 +11,7 @@ from .. import boot, genwf
 from ..boot import Runaway, VClock
 from ..runner import CaseResult, Prop
 
-EPS = 1e-9
+EPS = 1e-5  # epoch-based float arithmetic in the engine (1.7e9 + t) has ~2.4e-7 s resolution
 
 
 class C31(Prop):
@@ -33,7 +33,7 @@ class C31(Prop):
         "events at exactly the instant T (or the cancel instant) may legitimately go either way; only strict inequalities are asserted",
         "after a cancel the harness resumes with Context.from_dict on a fresh instance and ends the run with its finishing event",
     ]
-    budgets = {"quick": 1000, "thorough": 5000}
+    budgets = {"quick": 2500, "thorough": 8000}
     wall = {"quick": 60.0, "thorough": 900.0}
 
     def setup(self):
@@ -45,9 +45,16 @@ class C31(Prop):
         @st.composite
         def case(draw):
             spec = draw(base)
-            mode = draw(st.sampled_from(["timeout", "timeout", "cancel", "cancel", "both"]))
+            for stp in spec["steps"]:
+                if draw(st.integers(0, 3)) == 0:
+                    stp["cancel_delay"] = draw(st.sampled_from([0.1, 0.3, 0.4]))
+            mode = draw(st.sampled_from(["timeout", "timeout", "cancel", "cancel", "both", "rel_timeout", "rel_timeout", "rel_cancel"]))
+            if mode.startswith("rel_"):
+                # the instant is placed relative to an instant of the program's own undisturbed run (a step exit / StopEvent return),
+                # found by a dry run inside run_case: pick-th such instant + offset
+                spec["rel"] = {"what": mode[4:], "pick": draw(st.integers(0, 30)), "off": draw(st.sampled_from([-0.25, 0.0, 0.05, 0.25, 0.25, 0.35])), "prefer_stop": draw(st.booleans())}
             if mode in ("timeout", "both"):
-                spec["timeout"] = draw(st.sampled_from([0.5, 1, 1.5, 2, 2.5, 3, 3.5, 4.5, 5, 6.5, 8, 10.5, 13, 21]))
+                spec["timeout"] = draw(st.sampled_from([0.5, 1, 1.25, 1.5, 2, 2.25, 2.5, 3, 3.25, 3.5, 4.25, 4.5, 5, 5.25, 6.5, 8, 8.25, 10.5, 13, 21]))
             if mode in ("cancel", "both"):
                 spec["ext"].append([draw(st.sampled_from([0, 0.5, 1, 1.5, 2, 2.5, 3, 3.5, 4.5, 5, 6.5, 8, 11.5, 15])), "cancel"])
             return spec
@@ -58,6 +65,23 @@ class C31(Prop):
         spec = json.loads(json.dumps(case))
         spec["ext"].append([genwf.fin_time(spec), "send", "Fin", None, {}])
         r = CaseResult()
+        rel = spec.pop("rel", None)
+        if rel is not None:
+            dry = json.loads(json.dumps(spec))
+            try:
+                drec = genwf.run_case_program(dry, probe=False)
+            except Runaway as e:
+                raise RuntimeError(f"inconclusive dry run: {e}") from None
+            stops = sorted({i["t_out"] for i in drec.inv if i.get("out_type") == "GStop" and i["exit"] == "returned" and i["step"] != "fin"})
+            exits = sorted({i["t_out"] for i in drec.inv if i["t_out"] is not None and i["step"] != "fin"})
+            cand = stops if (rel["prefer_stop"] and stops) else exits
+            if cand:
+                at = max(0.05, cand[rel["pick"] % len(cand)] + rel["off"])
+                if rel["what"] == "timeout":
+                    spec["timeout"] = at
+                else:
+                    spec["ext"].append([at, "cancel"])
+                r.classes.append("relative_" + rel["what"])
         rec = genwf.Rec(spec)
         life2: dict = {}
 
@@ -152,6 +176,10 @@ class C31(Prop):
         cancelled_ev = [(t, e) for t, e in rec.stream if type(e).__name__ == "WorkflowCancelledEvent"]
         # ------------------------------------------------------------ timeout clauses
         first_end = min([x for x in (T, tc) if x is not None], default=None)
+        stops = [i["t_out"] for i in inv0 if i.get("out_type") == "GStop" and i["exit"] == "returned"]
+        t_stop = min(stops) if stops else None
+        if kind == "timeout" and T is not None and t_stop is not None and t_stop < T - EPS and (tc is None or tc > t_stop):
+            r.v("timed_out_although_stop_event_was_returned_before_deadline", stop_at=t_stop, timeout=T)
         if kind == "timeout":
             if T is None:
                 r.v("timeout_without_timeout_configured")
@@ -180,7 +208,8 @@ class C31(Prop):
                 r.v("timed_out_event_without_timeout_outcome", outcome=kind)
             if T is not None and (tc is None or tc > T + EPS):
                 # nothing else could end it: was it still unfinished strictly after T?
-                if t_res is None or t_res > T + EPS:
+                # worker teardown after the terminal cause may take up to the engine's 0.5 s grace
+                if t_res is None or (t_res > T + 0.5 + EPS) or (t_res > T + EPS and not any(s_.get("cancel_delay") for s_ in spec["steps"])):
                     r.v("unfinished_after_timeout_but_not_timed_out", outcome=kind, finished_at=t_res, timeout=T)
         # ------------------------------------------------------------ cancel clauses
         live_at_cancel = tc is not None and (t_res is None or t_res > tc - EPS) and (T is None or T > tc + EPS or kind == "cancelled")
@@ -206,9 +235,11 @@ class C31(Prop):
                     if not (o2["kind"] == "failed" and failing):
                         r.v("resumed_after_cancel_did_not_complete", outcome=o2["kind"], exc=repr(o2.get("exc"))[:100], retry_backoff_pending=pend_backoff)
                 # resuming continues the run; it does not start it over
-                started0 = [i for i in inv0 if i["type"] == "GStart" and i["exit"] == "returned" and tc is not None and i["t_out"] < tc - EPS]
-                again = [i for i in life2.get("inv", []) if i["type"] == "GStart"]
-                if started0 and again:
+                # (a re-delivery of the ORIGINAL start event - pending waiter, retry, in-flight start step - is legitimate;
+                #  a start event the harness never created means the workflow was started over with a fresh StartEvent)
+                start_uids = {e["uid"] for e in rec.emits.values() if e["via"] == "start"}
+                again = [i for i in life2.get("inv", []) if i["type"] == "GStart" and i["uid"] not in start_uids]
+                if again:
                     r.v("run_restarted_from_start_event_after_resume")
                 # every invocation queued or running at the cancel is entered again
                 snap = life2.get("snapshot", {})
@@ -231,7 +262,9 @@ class C31(Prop):
         else:
             if cancelled_ev:
                 r.v("cancelled_event_without_cancelled_outcome", outcome=kind)
-            if live_at_cancel and tc is not None and (t_res is None or t_res > tc + EPS) and (T is None or T > tc + EPS):
+            slow = any(s_.get("cancel_delay") for s_ in spec["steps"])
+            grace = 0.5 if slow else 0.0  # teardown after a terminal cause at or before the cancel instant may still be running
+            if live_at_cancel and tc is not None and (t_res is None or t_res > tc + grace + EPS) and (T is None or T > tc + EPS):
                 r.v("cancel_ignored", outcome=kind, cancel_at=tc, finished_at=t_res)
         # ------------------------------------------------------------ classes
         hit_t = first_end
